@@ -185,6 +185,7 @@ type Options struct {
 	Deadline   time.Duration // cap on wall time (0 = none)
 	DataBudget int           // dpor mode: max non-default environment answers per execution (-1 = unlimited)
 	SchedOnly  bool          // bounded mode: deviations only at scheduling points
+	DataOnly   bool          // bounded mode: deviations only at environment choice points
 }
 
 func deviations(ch []int) int {
@@ -232,6 +233,9 @@ func Bounded(body func() string, opt Options) *Stats {
 			}
 			for i := len(sd.prefix); i < len(x.Ns); i++ {
 				if opt.SchedOnly && x.Kinds[i] != "sched" {
+					continue
+				}
+				if opt.DataOnly && x.Kinds[i] == "sched" {
 					continue
 				}
 				for alt := 1; alt < x.Ns[i]; alt++ {
